@@ -573,7 +573,40 @@ func recoverSimple(img map[uint64][]byte, viaMakeNfs bool) (key string, errmsg s
 		}
 		m.data[i] = rd.Data
 	}
-	return m.key(), ""
+	key = m.key()
+	// continuation: the recovered server keeps serving correctly - three files
+	// are rewritten (stable), every file is read back (the other 27 must be
+	// untouched), and a second crash right after the last reply loses nothing
+	exp := m.clone()
+	for n, i := range []uint64{2, 3 + uint64(len(img))%28, simpleNInode - 1} {
+		data := bytes.Repeat([]byte{byte(0xC1 + n)}, 100+1300*n)
+		w := doSimple(srv, &sOp{K: OpWrite, FH: simpleFh(i, 16), Off: 0, Count: uint32(len(data)), Data: data, Stable: 2})
+		if w.Stat != stOK || w.Count != uint32(len(data)) {
+			return "", fmt.Sprintf("continuation after recovery: WRITE of %d bytes at 0 to inode %d: status %d count %d", len(data), i, w.Stat, w.Count)
+		}
+		if len(exp.data[i]) < len(data) {
+			exp.data[i] = append(exp.data[i], make([]byte, len(data)-len(exp.data[i]))...)
+		}
+		copy(exp.data[i], data)
+	}
+	readAll := func(api API, when string) string {
+		for i := uint64(2); i < simpleNInode; i++ {
+			rd := doSimple(api, &sOp{K: OpRead, FH: simpleFh(i, 16), Off: 0, Count: 4096})
+			if rd.Stat != stOK || !bytes.Equal(rd.Data, exp.data[i]) {
+				return fmt.Sprintf("continuation after recovery (%s): inode %d reads %d bytes (hash %s), the reference has %d bytes (hash %s) - three other/these files were rewritten after the recovery", when, i, len(rd.Data), hashBytes(rd.Data), len(exp.data[i]), hashBytes(exp.data[i]))
+			}
+		}
+		return ""
+	}
+	if e := readAll(srv, "same instance"); e != "" {
+		return "", e
+	}
+	img2 := d.Snapshot()
+	d2 := NewCDiskFrom(2000, img2)
+	if e := readAll(simple.Recover(d2), "after a second crash right after the last reply"); e != "" {
+		return "", e
+	}
+	return key, ""
 }
 
 type sHist struct {
